@@ -324,3 +324,44 @@ func VerifC19RouteOrderAndChannelsRoundTrip() {
 	}
 	vrt.Assert("C19.routes.same-routes-in-the-same-order-with-the-same-channel-auth-and-targets", same)
 }
+
+// verif:harness props=C19 tier=quick native=yes weight=40
+// verif:bounds a file whose leading comment line is followed by ONE arbitrary byte (all 256 values: LF, CR, NUL, '#', quotes, high bytes ...) and then the text of a route block on the same physical line, then a second route; optionally CRLF line endings and a UTF-8 BOM; Parse -> Compile and Parse -> Format -> Parse -> Compile: whether the byte ends the comment (so the route is configuration) or not (so it is commentary) is decided the same way before and after formatting
+func VerifC19CommentBoundaryRoundTrip() {
+	h := vrt.Byte("byte-after-the-comment")
+	eol := "\n"
+	if vrt.Bool("crlf") {
+		eol = "\r\n"
+	}
+	src := ""
+	if vrt.Bool("bom") {
+		src = "\xef\xbb\xbf"
+	}
+	src += "# operator notes" + string([]byte{h}) + "/dbg { pull { path /pull/dbg } }" + eol
+	src += "pull_api {" + eol + "  auth token raw:tok" + eol + "}" + eol
+	src += "\"/hooks\" {" + eol + "  pull {" + eol + "    path \"/pull/hooks\"" + eol + "  }" + eol + "}" + eol
+	c1, err := Parse([]byte(src))
+	if err != nil {
+		return // only texts that parse are in scope
+	}
+	vrt.Cover("comment.parsed")
+	k1, r1 := Compile(c1)
+	f1, err := Format(c1)
+	vrt.Assert("C19.comment.formats", err == nil)
+	c2, err := Parse(f1)
+	vrt.Assert("C19.comment.formatted-text-parses-again", err == nil)
+	if err != nil {
+		return
+	}
+	k2, r2 := Compile(c2)
+	f2, _ := Format(c2)
+	vrt.Assert("C19.comment.formatting-twice-changes-nothing", string(f1) == string(f2))
+	vrt.Assert("C19.comment.same-validation-result", r1.OK == r2.OK)
+	same := len(k1.Routes) == len(k2.Routes)
+	if same {
+		for i := range k1.Routes {
+			same = same && k1.Routes[i].Path == k2.Routes[i].Path
+		}
+	}
+	vrt.Assert("C19.comment.same-routes-before-and-after-formatting", same)
+}
